@@ -7,6 +7,9 @@ oracle: the property predicate on the implementation's outputs after EVERY op, a
         triangular solve / normal equations / thresholded pivots, Anderson affine combination."""
 import math, itertools
 from vf.core import *
+from vf import gentie        # translator G12: translate/gen_lmqr.py -> coq/gen/LmqrGen.v (LmqrGenEq.v: generated = LMQR.v)
+
+LMQRGEN = gentie.Tie("translator_lmqr", "gen_lmqr.py", "LmqrGen", "LmqrGen.ref.v", "LmqrGenEq", ["LmqrGenInst"], "LMQR.v")
 
 EPS = 2.0 ** -52
 
@@ -560,7 +563,20 @@ def run(ctx):
         "orthonormality of Q, least-squares optimality of solve_col and the Anderson window/LS theorems are exact-arithmetic statements; in binary64 they are checked by the oracle with condition-scaled tolerances",
         "least-squares minimality is proved when no pivot is thresholded; with thresholded pivots the theorem states x_T = 0 and Q_i^T(Ax-b) = 0 for the kept pivots (not a minimisation over all z)",
     ]
-    check_properties(ctx)
+    gentie.translate(ctx, LMQRGEN)                 # tie 1: regenerate coq/gen/LmqrGen.v from core.REPO; status -> ctx.coverage["translator_lmqr"]
+    ok = check_properties(ctx)                     # Properties_C10.v requires LmqrGenEq.v (generated = hand model, piece by piece)
+    if not ok:
+        gentie.name_obligations(ctx, LMQRGEN)      # name every LmqrGenEq obligation that no longer checks
+    gentie.account_eq(ctx, LMQRGEN, ok)
+    ctx.assumptions += [
+        "translator G12 (gen_lmqr.py): Q.col(j) / R.col(c) / R(r, c) and the members q_idx, r_idx_start, r_idx_end, reorth_count, min_eig, max_eig are get / set on an "
+        "abstract matrix store (LmqrGenLib.qr_ops, instantiated by the raw storage of LMQR.qrst); `auto q = Q.col(e)` is a view (index evaluated at the declaration); "
+        "min_eig / max_eig are option values (None = the initial infinity); Eigen's makeGivens / applyOnTheLeft / applyOnTheRight are the hand-transcribed jr_* of "
+        "LmqrGenLib.v; `while` / general `for` loops run with fuel (fuelS = 64 for the re-orthogonalisation loop, fuelN = capacity for index / iterator loops); the "
+        "reverse iterator / reverse range / iterator comparison operators of ringbuffer.hpp must be the plain delegations they are (checked, else out of grammar)",
+        "generated piece = hand model piece is proved in LmqrGenEq.v (over ideal reals where the terms are not convertible, under the storage invariant wf where a read "
+        "after a write must hit the written cell); binary64 agreement of the generated functions with the implementation is checked by Corr_LmqrGen.chk10g on the same "
+        "records (independent of the hand model)"]
     rc, log = coq_make(["theories/Corr_C10.vo"])     # the executable side of the model (kept up to date with LMQR.v)
     if rc != 0:
         ctx.broke("correspondence", "coq-build:Corr_C10", log)
@@ -652,3 +668,8 @@ def run(ctx):
                   json.dumps({"input": "\n".join(seqs[k]["_in"]), "model_trace(ok_x, ok_snapshot, state, x)": getattr(ctx, "last_dump", "")}))
     elif failing is not None:
         ctx.coverage["correspondence_disagreements"] = 0
+    # translation validation: the GENERATED functions (run on the same container) against the same implementation records
+    def describe(i):
+        return "%s history: %s" % (seqs[idx[i]]["kind"], " | ".join(seqs[idx[i]]["_in"])[:1500])
+    gentie.validate(ctx, LMQRGEN, "gencorr", "LMQR LmqrGenLib LmqrGen LmqrGenInst Corr_C10 Corr_LmqrGen", "c10case", "chk10g", terms,
+                    "model10g", describe, shard=max(20, len(terms) // 16 + 1))
